@@ -390,7 +390,7 @@ def main(chk):
                 'independently; LC EXPOSURE through the real xpbin. non-trivial = ≥ 2 GTIs with kept and dropped times / both flags present and non-zero padding / '
                 'bin overlapping ≥ 2 GTIs')
     chk.assumptions = TRUSTED
-    chk.lean(['IxpeVerif.Props.C18', 'IxpeVerif.Props.Audit.C18'])
+    chk.lean(['IxpeVerif.Props.C18', 'IxpeVerif.Props.Audit.C18'], ['bin_gti', 'filter_event_times', 'total_good_time', 'all_mets', 'gti_complement'])
     n = 60 if chk.tier == 'quick' else 2000
     run_cases(chk, n, 'C18-corr')
     lc_file(chk, rng('C18-lc'))
